@@ -131,6 +131,20 @@ Definition valid_3mr (d : inst) (r : list (feat * Z)) : bool :=
 Definition clauses_3mr (d : inst) (r : list (feat * Z)) : bool * bool * bool * bool :=
   (permb d (map fst r), firstb d (map fst r), stepsb d (map fst r), ranksb r).
 
+(* informational: the ranking is forced (no tie anywhere), so every valid data frame lists the same features *)
+Fixpoint steps_strictb (d : inst) (prefix rest : list feat) : bool :=
+  match rest with
+  | [] => true
+  | f :: s => forallb (fun g => Qltb (score d prefix g) (score d prefix f)) s
+              && steps_strictb d (prefix ++ [f]) s
+  end.
+Definition uniqueb (d : inst) (fs : list feat) : bool :=
+  match fs with
+  | [] => true
+  | f0 :: rest => forallb (fun g => N.eqb g f0 || Qltb (relv d g) (relv d f0)) (feats d)
+                  && steps_strictb d [f0] rest
+  end.
+
 (* Appendix C interface *)
 Definition C17_case := inst.
 Definition C17_obs := list (feat * Z).
